@@ -22,6 +22,7 @@ import IocProofs.Lemmas.M2StepFresh
 import IocProofs.Lemmas.M2Examples
 import IocProofs.Lemmas.M2SucceedsConv
 import Ioc.Match
+import IocProofs.Lemmas.SemApp
 namespace Ioc.C09
 open Ioc Ioc.M2 Ioc.App
 
@@ -264,5 +265,32 @@ example : Sx.Reach cycMissing 3 ∧ Sx.StaticFault cycMissing 3 :=
   ⟨(((Sx.Reach.root (n := 0) (by decide)).edge 1 (by decide)).edge 2 (by decide)).edge 3 (by decide), by decide⟩
 /-- the lazy component 6 is not needed by anybody: a fault there does not matter (C05_lazy_only_if_needed) -/
 example : (final { cyc with fInit := fun n => n == 6 }).status = .done := by decide
+
+/-! ### the tie to the code: the stage pipeline IS the regenerated program of App.run
+
+`Ioc.Progs.app_run` is the syntax tree of `App.run` (app/app.go), re-translated from /repo's source on every run.  Run by
+the MiniGo interpreter with each stage method failing as an arbitrary predicate says, it calls initConfiguration,
+initFactory, refresh, callRunners in this order, each only when every earlier one returned nil, and returns nil exactly
+when all four did — the pipeline `App.appRun` (C09_stages) is written after. -/
+
+theorem C09_code_run (fails : String → Bool) :
+    Go.run (Sem.runPrims fails) Progs.app_run [] [] =
+      some (if (Sem.stagesUntilFail fails Sem.theStages).2 then .nil else Sem.errA,
+            (Sem.stagesUntilFail fails Sem.theStages).1) :=
+  Sem.app_run_sem fails
+
+/-- a failing stage is the last one called, and the start returns an error -/
+theorem C09_code_run_stops (fails : String → Bool) (s : String) (hs : s ∈ (Sem.stagesUntilFail fails Sem.theStages).1)
+    (hf : fails s = true) :
+    (Sem.stagesUntilFail fails Sem.theStages).2 = false ∧ (Sem.stagesUntilFail fails Sem.theStages).1.getLast? = some s := by
+  cases h1 : fails "initConfiguration" <;> cases h2 : fails "initFactory" <;> cases h3 : fails "refresh" <;>
+    cases h4 : fails "callRunners" <;>
+    simp [Sem.stagesUntilFail, Sem.theStages, h1, h2, h3, h4] at hs ⊢ <;>
+    (try (rcases hs with rfl | rfl | rfl | rfl <;> simp_all)) <;> (try (rcases hs with rfl | rfl | rfl <;> simp_all)) <;>
+    (try (rcases hs with rfl | rfl <;> simp_all)) <;> (try (subst hs; simp_all))
+
+example : Go.run (Sem.runPrims (fun s => s == "refresh")) Progs.app_run [] [] =
+    some (Sem.errA, ["initConfiguration", "initFactory", "refresh"]) :=
+  (Sem.app_run_sem _).trans (by rfl)
 
 end Ioc.C09
